@@ -79,6 +79,14 @@ type (
 		I string           `json:",omitempty"`
 		J uint32           `json:"j,omitzero"`
 	}
+	DashInner struct {
+		Q int `json:"q"`
+	}
+	DashMid struct {
+		DashInner `json:"-"`
+		Rev       int `json:"rev,omitempty"`
+		Name2     string
+	}
 	Described struct {
 		P int    `json:"p" jsonschema:"the p field"`
 		Q string `jsonschema:"q of the thing"`
@@ -137,6 +145,7 @@ var Pool = []PoolEntry{
 	{"Inner", reflect.TypeFor[Inner](), "struct"}, {"Base", reflect.TypeFor[Base](), "struct"}, {"Shadow", reflect.TypeFor[Shadow](), "struct"},
 	{"PtrEmbed", reflect.TypeFor[PtrEmbed](), "struct"}, {"Deep", reflect.TypeFor[Deep](), "struct"}, {"WithUnexp", reflect.TypeFor[WithUnexp](), "struct"},
 	{"Mixed", reflect.TypeFor[Mixed](), "struct"}, {"Described", reflect.TypeFor[Described](), "struct"},
+	{"DashInner", reflect.TypeFor[DashInner](), "struct"}, {"DashMid", reflect.TypeFor[DashMid](), "struct"},
 	{"Rec", reflect.TypeFor[Rec](), "recursive"}, {"RecA", reflect.TypeFor[RecA](), "recursive"}, {"RecB", reflect.TypeFor[RecB](), "recursive"}, {"RecMap", reflect.TypeFor[RecMap](), "recursive"},
 	{"NFunc", reflect.TypeFor[NFunc](), "unsupported"}, {"NChan", reflect.TypeFor[NChan](), "unsupported"}, {"NIntMap", reflect.TypeFor[NIntMap](), "unsupported"},
 	{"NFuncs", reflect.TypeFor[NFuncs](), "unsupported"}, {"NComplex", reflect.TypeFor[NComplex](), "unsupported"},
@@ -156,7 +165,7 @@ func poolByName(name string) (PoolEntry, bool) {
 }
 
 // EmbeddablePool lists pool structs that reflect.StructOf can embed (exported, no methods).
-var EmbeddablePool = []string{"Inner", "Base", "Shadow", "Described", "Mixed"}
+var EmbeddablePool = []string{"Inner", "Base", "Shadow", "Described", "Mixed", "DashMid", "DashInner"}
 
 // ---- descriptors ------------------------------------------------------------------------------
 
@@ -435,7 +444,10 @@ func (g *tg) structTD(depth int, addressable bool) *TD {
 			if g.n(3, "embedptr") == 0 {
 				f.T = &TD{K: "ptr", Elem: f.T}
 			}
-			if g.n(4, "embedtag") == 0 {
+			if strings.HasPrefix(pn, "Dash") && g.n(2, "dashtag") == 0 {
+				// nested `json:"-"` embeddings: everything below must stay invisible
+				f.HasTag, f.Tag = true, "-"
+			} else if g.n(4, "embedtag") == 0 {
 				// a json tag on an embedded struct: a name makes it an ordinary field, "-" omits it
 				f.HasTag = true
 				f.Tag = rapid.SampledFrom([]string{"in", "-", ",omitempty", "in,omitempty", "a'b"}).Draw(g.t, "embedtagval")
